@@ -951,3 +951,559 @@ func c07Scope(path string, version int32) string {
 	}
 	return "covered"
 }
+
+// ---------------------------------------------------------------------------------------------
+// signature / signer mutations and forgeries
+
+type c07Slot struct {
+	list string
+	i    int
+}
+
+func c07Slots(tx *pb.Transaction) []c07Slot {
+	var out []c07Slot
+	for i := range tx.InitiatorSigns {
+		out = append(out, c07Slot{"initiator_signs", i})
+	}
+	for i := range tx.AuthRequireSigns {
+		out = append(out, c07Slot{"auth_require_signs", i})
+	}
+	return out
+}
+
+func c07SlotPtr(tx *pb.Transaction, s c07Slot) **protos.SignatureInfo {
+	if s.list == "initiator_signs" {
+		return &tx.InitiatorSigns[s.i]
+	}
+	return &tx.AuthRequireSigns[s.i]
+}
+
+func c07KeyOfPub(pub string) *hx.Key {
+	for _, k := range hx.Ring {
+		if k.PubJSON == pub {
+			return k
+		}
+	}
+	return nil
+}
+
+func c07IsAcctName(s string) bool { return strings.HasPrefix(s, "XC") && strings.Contains(s, "@") }
+
+// c07Redundant: the verifier never looks at auth_require_signs[j] because the entry's last path
+// component is an address it has verified before (initiator, initiator's keys, an earlier entry).
+func c07Redundant(tx *pb.Transaction, j int) bool {
+	seen := map[string]bool{}
+	if c07IsAcctName(tx.Initiator) {
+		for _, si := range tx.InitiatorSigns {
+			if k := c07KeyOfPub(si.PublicKey); k != nil {
+				seen[k.Address] = true
+			}
+		}
+	} else {
+		seen[tx.Initiator] = true
+	}
+	for i := 0; i < j; i++ {
+		seen[c07Last(tx.AuthRequire[i])] = true
+	}
+	return seen[c07Last(tx.AuthRequire[j])]
+}
+
+func (x *c07Ctx) slotRedundant(s c07Slot) bool {
+	return s.list == "auth_require_signs" && c07Redundant(x.T, s.i)
+}
+
+// outsider: first ring key that signs nothing in T.
+func (x *c07Ctx) outsider() *hx.Key {
+	for i := 0; i < hx.RingSize; i++ {
+		if !x.signed[i] && i != hx.MinerKey {
+			return hx.Ring[i]
+		}
+	}
+	return nil
+}
+
+// victim: first funded ring key that signs nothing in T, and its first spendable output.
+func (x *c07Ctx) victim() (*hx.Key, *hx.UTXO) {
+	s := x.nm.PoolState()
+	for i := 0; i < 7; i++ {
+		if x.signed[i] {
+			continue
+		}
+		if us := spendable(s, hx.Ring[i].Address, x.height, false); len(us) > 0 {
+			return hx.Ring[i], us[0]
+		}
+	}
+	return nil, nil
+}
+
+func (x *c07Ctx) attacker() *hx.Key {
+	if x.b.Form == "acctinit" {
+		return hx.Ring[x.b.InitAks[0]]
+	}
+	return hx.Ring[x.b.Spec.From]
+}
+
+func c07InputOf(u *hx.UTXO) *protos.TxInput {
+	return &protos.TxInput{RefTxid: u.Txid, RefOffset: u.Off, FromAddr: []byte(u.Addr), Amount: u.Amount.Bytes(), FrozenHeight: u.Frozen}
+}
+
+// c07SpecialMuts enumerates the signature, signer and forgery mutations of the base.
+func (x *c07Ctx) specialMuts() []c07Mut {
+	var out []c07Mut
+	T := x.T
+	if x.b.Form == "xsign" {
+		for _, k := range []string{"corrupt", "dropkey", "swapkeys", "replay", "partial", "otherkey", "remove"} {
+			out = append(out, c07Mut{Class: "xsig", Kind: k})
+		}
+	} else {
+		slots := c07Slots(T)
+		for g, s := range slots {
+			for _, k := range []string{"corrupt", "empty", "dropslot", "otherkey", "otherkeypub", "replay"} {
+				out = append(out, c07Mut{Class: "sig", Path: s.list, Kind: k, Arg: g})
+			}
+			for g2 := g + 1; g2 < len(slots); g2++ {
+				a, b := *c07SlotPtr(T, s), *c07SlotPtr(T, slots[g2])
+				if a.PublicKey != b.PublicKey {
+					out = append(out, c07Mut{Class: "sig", Path: s.list, Kind: "swapsig", Arg: g, Arg2: g2},
+						c07Mut{Class: "sig", Path: s.list, Kind: "swapinfo", Arg: g, Arg2: g2})
+				}
+			}
+		}
+	}
+	for j := range T.AuthRequire {
+		for _, k := range []string{"sub", "sub-resign-own", "sub-resign-vpub", "del", "del-resign"} {
+			out = append(out, c07Mut{Class: "signer", Path: "auth_require", Kind: k, Arg: j})
+		}
+	}
+	for _, k := range []string{"add", "add-resign-own", "add-resign-vpub"} {
+		out = append(out, c07Mut{Class: "signer", Path: "auth_require", Kind: k})
+	}
+	if x.b.Form == "acctinit" {
+		out = append(out, c07Mut{Class: "signer", Path: "initiator_signs", Kind: "initak-outsider"})
+		for i := range x.b.InitAks {
+			out = append(out, c07Mut{Class: "signer", Path: "initiator_signs", Kind: "initak-del-resign", Arg: i})
+		}
+	}
+	for _, k := range []string{"plain-add", "plain-replace", "listed-own", "listed-vpub", "xs-partial", "xs-omit", "xs-ecdsa", "xs-der", "xs-rogue"} {
+		out = append(out, c07Mut{Class: "forge", Kind: k})
+	}
+	if len(T.ContractRequests) > 0 {
+		out = append(out, c07Mut{Class: "forge", Kind: "contract-claim"})
+	}
+	if x.acct != "" {
+		for _, k := range []string{"acct-outsider", "acct-below", "acct-init-outsider"} {
+			out = append(out, c07Mut{Class: "forge", Kind: k})
+		}
+	}
+	return out
+}
+
+type c07Special struct {
+	tx          *pb.Transaction
+	skip        string // not applicable to this base
+	staleAlso   bool   // the mutant keeps T's txid in one variant (otherwise only the recomputed id is tried)
+	mustReject  bool   // the statement demands rejection (recomputed id)
+	staleReject bool   // the statement demands rejection with the stale id
+	note        string
+}
+
+func c07StripSigs(tx *pb.Transaction) {
+	tx.InitiatorSigns, tx.AuthRequireSigns, tx.XuperSign = nil, nil, nil
+}
+
+// pureTransfer: a fresh transaction that only moves u to `to`.
+func (x *c07Ctx) pureTransfer(initiator string, auth []string, u *hx.UTXO, to string, tag string) *pb.Transaction {
+	return &pb.Transaction{Version: x.T.Version, Nonce: x.T.Nonce + "-" + tag, Timestamp: x.T.Timestamp, Initiator: initiator, AuthRequire: auth,
+		TxInputs:  []*protos.TxInput{c07InputOf(u)},
+		TxOutputs: []*protos.TxOutput{{ToAddr: []byte(to), Amount: u.Amount.Bytes()}}}
+}
+
+func c07DER(sig []byte) (r, s *big.Int) {
+	// DER SEQUENCE { INTEGER r, INTEGER s } as produced by hx.DetSign
+	p := sig[2:]
+	rl := int(p[1])
+	r = new(big.Int).SetBytes(p[2 : 2+rl])
+	p = p[2+rl:]
+	sl := int(p[1])
+	s = new(big.Int).SetBytes(p[2 : 2+sl])
+	return
+}
+
+func (x *c07Ctx) applySpecial(mut c07Mut) c07Special {
+	T := x.T
+	m := hx.CloneTx(T)
+	res := c07Special{tx: m, staleAlso: true, mustReject: true, staleReject: true}
+	other := x.outsider()
+	switch mut.Class {
+	case "sig":
+		slots := c07Slots(m)
+		if mut.Arg >= len(slots) {
+			res.skip = "no such slot"
+			return res
+		}
+		s := slots[mut.Arg]
+		sp := c07SlotPtr(m, s)
+		red := x.slotRedundant(s)
+		switch mut.Kind {
+		case "corrupt":
+			(*sp).Sign[len((*sp).Sign)-1] ^= 1
+			res.mustReject = !red
+		case "empty":
+			(*sp).Sign = nil
+			res.mustReject = !red
+		case "otherkey":
+			(*sp).Sign = hx.DetSign(other.Priv, x.digest)
+			res.mustReject = !red
+		case "otherkeypub":
+			(*sp).Sign = hx.DetSign(other.Priv, x.digest)
+			(*sp).PublicKey = other.PubJSON
+			res.mustReject = !red
+		case "replay":
+			(*sp).Sign = append([]byte{}, (*c07SlotPtr(x.T2, s)).Sign...)
+			res.mustReject = !red
+		case "dropslot":
+			if s.list == "initiator_signs" {
+				m.InitiatorSigns = append(m.InitiatorSigns[:s.i:s.i], m.InitiatorSigns[s.i+1:]...)
+				if x.b.Form == "acctinit" {
+					var rest []int
+					for i, k := range x.b.InitAks {
+						if i != s.i {
+							rest = append(rest, k)
+						}
+					}
+					// the remaining initiator signatures are genuine: rejection is demanded only
+					// if they no longer satisfy the account's rule / cover the inputs
+					res.mustReject = len(rest) == 0 || !x.modelAuthorised(m, rest)
+				}
+			} else {
+				m.AuthRequireSigns = append(m.AuthRequireSigns[:s.i:s.i], m.AuthRequireSigns[s.i+1:]...)
+			}
+		case "swapsig", "swapinfo":
+			s2 := slots[mut.Arg2]
+			sp2 := c07SlotPtr(m, s2)
+			if mut.Kind == "swapinfo" {
+				*sp, *sp2 = *sp2, *sp
+			} else {
+				(*sp).Sign, (*sp2).Sign = (*sp2).Sign, (*sp).Sign
+			}
+			res.mustReject = !(red && x.slotRedundant(s2))
+		default:
+			res.skip = "unknown kind"
+		}
+	case "xsig":
+		if m.XuperSign == nil {
+			res.skip = "not aggregated"
+			return res
+		}
+		who := c07DefWho(nil)
+		switch mut.Kind {
+		case "corrupt":
+			var xs c07XuperSigJSON
+			var ms struct{ S, R []byte }
+			if json.Unmarshal(m.XuperSign.Signature, &xs) != nil || json.Unmarshal(xs.SigContent, &ms) != nil {
+				res.skip = "unparsable base signature"
+				return res
+			}
+			ms.S = new(big.Int).Add(new(big.Int).SetBytes(ms.S), big.NewInt(1)).Bytes()
+			xs.SigContent, _ = json.Marshal(ms)
+			m.XuperSign.Signature, _ = json.Marshal(xs)
+		case "dropkey":
+			m.XuperSign.PublicKeys = m.XuperSign.PublicKeys[:len(m.XuperSign.PublicKeys)-1]
+		case "swapkeys":
+			pk := m.XuperSign.PublicKeys
+			pk[0], pk[1] = pk[1], pk[0]
+		case "replay":
+			m.XuperSign.Signature = append([]byte{}, x.T2.XuperSign.Signature...)
+		case "partial":
+			c07XSign(m, who, len(c07AddrList(m))-1)
+		case "otherkey":
+			al := c07AddrList(m)
+			lastAddr := al[len(al)-1]
+			c07XSign(m, c07DefWho(func(a string) (*hx.Key, *hx.Key) {
+				if a == lastAddr {
+					return other, hx.KeyOf(a)
+				}
+				return nil, nil
+			}), -1)
+		case "remove":
+			m.XuperSign = nil
+		default:
+			res.skip = "unknown kind"
+		}
+		m.Txid = T.Txid
+	case "signer":
+		v := other
+		if v == nil {
+			res.skip = "no outsider"
+			return res
+		}
+		atk := x.attacker()
+		j := mut.Arg
+		subst := func(uri string) string {
+			p := strings.Split(uri, "/")
+			p[len(p)-1] = v.Address
+			return strings.Join(p, "/")
+		}
+		switch mut.Kind {
+		case "sub":
+			m.AuthRequire[j] = subst(m.AuthRequire[j])
+		case "sub-resign-own", "sub-resign-vpub":
+			old := hx.KeyOf(c07Last(m.AuthRequire[j]))
+			m.AuthRequire[j] = subst(m.AuthRequire[j])
+			pk := old
+			if mut.Kind == "sub-resign-vpub" {
+				pk = v
+			}
+			x.resign(m, func(a string) (*hx.Key, *hx.Key) {
+				if a == v.Address {
+					return old, pk
+				}
+				return nil, nil
+			})
+			res.staleAlso = false
+		case "add":
+			m.AuthRequire = append(m.AuthRequire, v.Address)
+			if m.XuperSign != nil {
+				m.XuperSign.PublicKeys = append(m.XuperSign.PublicKeys, []byte(v.PubJSON))
+			} else {
+				m.AuthRequireSigns = append(m.AuthRequireSigns, proto.Clone(m.InitiatorSigns[0]).(*protos.SignatureInfo))
+			}
+		case "add-resign-own", "add-resign-vpub":
+			m.AuthRequire = append(m.AuthRequire, v.Address)
+			pk := atk
+			if mut.Kind == "add-resign-vpub" {
+				pk = v
+			}
+			x.resign(m, func(a string) (*hx.Key, *hx.Key) {
+				if a == v.Address {
+					return atk, pk
+				}
+				return nil, nil
+			})
+			res.staleAlso = false
+		case "del":
+			m.AuthRequire = append(m.AuthRequire[:j:j], m.AuthRequire[j+1:]...)
+			if m.XuperSign == nil {
+				m.AuthRequireSigns = append(m.AuthRequireSigns[:j:j], m.AuthRequireSigns[j+1:]...)
+			}
+		case "del-resign":
+			m.AuthRequire = append(m.AuthRequire[:j:j], m.AuthRequire[j+1:]...)
+			if x.b.Form == "xsign" && len(c07AddrList(m)) < 2 {
+				res.skip = "aggregated form needs two keys"
+				return res
+			}
+			x.resign(m, nil)
+			res.staleAlso = false
+			// every remaining signature is genuine: rejection is demanded only if the removed signer
+			// was needed by the authorisation clause
+			res.mustReject = !x.modelAuthorised(m, x.b.InitAks)
+			if !res.mustReject {
+				res.note = "still-authorised"
+			}
+		case "initak-outsider":
+			c07PlainSign(m, [][2]*hx.Key{{v, v}}, c07DefWho(nil))
+			res.staleAlso = false
+		case "initak-del-resign":
+			var rest []int
+			var ks [][2]*hx.Key
+			for i, k := range x.b.InitAks {
+				if i != j {
+					rest = append(rest, k)
+					ks = append(ks, [2]*hx.Key{hx.Ring[k], hx.Ring[k]})
+				}
+			}
+			c07PlainSign(m, ks, c07DefWho(nil))
+			res.staleAlso = false
+			res.mustReject = len(rest) == 0 || !x.modelAuthorised(m, rest)
+			if !res.mustReject {
+				res.note = "still-authorised"
+			}
+		default:
+			res.skip = "unknown kind"
+		}
+	case "forge":
+		res.staleAlso = false
+		atk := x.attacker()
+		vk, u := x.victim()
+		needVictim := !strings.HasPrefix(mut.Kind, "acct-")
+		if needVictim && vk == nil {
+			res.skip = "no funded outsider"
+			return res
+		}
+		subV := func(sk, pk *hx.Key) c07Who {
+			return func(a string) (*hx.Key, *hx.Key) {
+				if a == vk.Address {
+					return sk, pk
+				}
+				return nil, nil
+			}
+		}
+		addIn := func() {
+			m.TxInputs = append(m.TxInputs, c07InputOf(u))
+			m.TxOutputs = append(m.TxOutputs, &protos.TxOutput{ToAddr: []byte(atk.Address), Amount: u.Amount.Bytes()})
+		}
+		switch mut.Kind {
+		case "plain-add":
+			addIn()
+			x.resign(m, nil)
+		case "plain-replace":
+			con := c07ContractInputs(m)
+			idx := -1
+			for i, in := range m.TxInputs {
+				if !con[hx.UKey(string(in.FromAddr), in.RefTxid, in.RefOffset)] && new(big.Int).SetBytes(in.Amount).Cmp(u.Amount) <= 0 {
+					idx = i
+					break
+				}
+			}
+			if idx < 0 {
+				res.skip = "no replaceable input"
+				return res
+			}
+			delta := new(big.Int).Sub(u.Amount, new(big.Int).SetBytes(m.TxInputs[idx].Amount))
+			m.TxInputs[idx] = c07InputOf(u)
+			if delta.Sign() > 0 {
+				m.TxOutputs = append(m.TxOutputs, &protos.TxOutput{ToAddr: []byte(atk.Address), Amount: delta.Bytes()})
+			}
+			x.resign(m, nil)
+		case "listed-own", "listed-vpub":
+			addIn()
+			m.AuthRequire = append(m.AuthRequire, vk.Address)
+			pk := atk
+			if mut.Kind == "listed-vpub" {
+				pk = vk
+			}
+			x.resign(m, subV(atk, pk))
+		case "xs-partial", "xs-omit":
+			f := x.pureTransfer(atk.Address, []string{vk.Address}, u, atk.Address, mut.Kind)
+			omit := -1
+			if mut.Kind == "xs-omit" {
+				omit = 1
+			}
+			c07XSign(f, c07DefWho(subV(atk, vk)), omit)
+			res.tx = f
+		case "xs-ecdsa", "xs-der":
+			// the initiator alone signs; the victim's (public) key is merely listed
+			f := x.pureTransfer(atk.Address, []string{vk.Address}, u, atk.Address, mut.Kind)
+			sig := hx.DetSign(atk.Priv, c07Digest(f))
+			if mut.Kind == "xs-ecdsa" {
+				r, s := c07DER(sig)
+				content, _ := json.Marshal(struct{ R, S *big.Int }{r, s})
+				sig, _ = json.Marshal(c07XuperSigJSON{SigType: "ECDSA", SigContent: content})
+			}
+			f.XuperSign = &pb.XuperSignature{PublicKeys: [][]byte{[]byte(atk.PubJSON), []byte(vk.PubJSON)}, Signature: sig}
+			f.Txid = c07ID(f)
+			res.tx = f
+		case "xs-rogue":
+			// initiator key P_a = x*G - P_v (nobody knows its private key); C = P_a + P_v = x*G
+			curve := elliptic.P256()
+			xs := new(big.Int).SetBytes(c07Nonce(atk, []byte("rogue"), 0))
+			xs.Mod(xs, curve.Params().N)
+			gx, gy := curve.ScalarBaseMult(xs.Bytes())
+			ny := new(big.Int).Sub(curve.Params().P, vk.Priv.PublicKey.Y)
+			ax, ay := curve.Add(gx, gy, vk.Priv.PublicKey.X, ny)
+			addr, err := hx.Crypt.GetAddressFromPublicKey(&ecdsa.PublicKey{Curve: curve, X: ax, Y: ay})
+			if err != nil {
+				res.skip = "rogue address: " + err.Error()
+				return res
+			}
+			f := x.pureTransfer(addr, []string{vk.Address}, u, atk.Address, mut.Kind)
+			d := c07Digest(f)
+			k := c07Nonce(atk, d, 7)
+			rx, ry := curve.ScalarBaseMult(k)
+			rb := elliptic.Marshal(curve, rx, ry)
+			cb := elliptic.Marshal(curve, gx, gy)
+			h := sha256.Sum256(append(append(append([]byte{}, cb...), rb...), d...))
+			sv := new(big.Int).Mul(new(big.Int).SetBytes(h[:]), xs)
+			sv.Add(sv, new(big.Int).SetBytes(k))
+			sig, _ := hx.Crypt.GenerateMultiSignSignature(sv.Bytes(), rb)
+			f.XuperSign = &pb.XuperSignature{PublicKeys: [][]byte{[]byte(c07PubJSON(ax, ay)), []byte(vk.PubJSON)}, Signature: sig}
+			f.Txid = c07ID(f)
+			res.tx = f
+		case "contract-claim":
+			if len(m.ContractRequests) == 0 {
+				res.skip = "no contract"
+				return res
+			}
+			addIn()
+			claimed, _ := xmodel.ParseContractUtxoInputs(m)
+			claimed = append(claimed, c07InputOf(u))
+			val, _ := xmodel.MarshalMessages(claimed)
+			done := false
+			for _, oe := range m.TxOutputsExt {
+				if oe.Bucket == hx.TransientBucket && string(oe.Key) == "ContractUtxo.Inputs" {
+					oe.Value = val
+					done = true
+				}
+			}
+			if !done {
+				m.TxOutputsExt = append(m.TxOutputsExt, &protos.TxOutputExt{Bucket: hx.TransientBucket, Key: []byte("ContractUtxo.Inputs"), Value: val})
+			}
+			x.resign(m, nil)
+		case "acct-outsider", "acct-below", "acct-init-outsider":
+			if x.acct == "" {
+				res.skip = "no account"
+				return res
+			}
+			us := spendable(x.nm.PoolState(), x.acct, x.height, false)
+			if len(us) == 0 {
+				res.skip = "account owns nothing"
+				return res
+			}
+			member := map[int]bool{}
+			for _, k := range x.b.Acct.Aks {
+				member[k] = true
+			}
+			var out *hx.Key
+			for i := 0; i < hx.RingSize; i++ {
+				if !member[i] && i != hx.MinerKey {
+					out = hx.Ring[i]
+					break
+				}
+			}
+			switch mut.Kind {
+			case "acct-outsider":
+				f := x.pureTransfer(out.Address, []string{out.Address, x.acct + "/" + out.Address}, us[0], out.Address, mut.Kind)
+				c07PlainSign(f, [][2]*hx.Key{{out, out}}, c07DefWho(nil))
+				res.tx = f
+			case "acct-init-outsider":
+				f := x.pureTransfer(x.acct, []string{x.acct + "/" + out.Address}, us[0], out.Address, mut.Kind)
+				c07PlainSign(f, [][2]*hx.Key{{out, out}}, c07DefWho(nil))
+				res.tx = f
+			default:
+				// the largest member subset (drop one member at a time) that does not satisfy the rule
+				var sub []int
+				for drop := range x.b.Acct.Aks {
+					ks := map[int]bool{}
+					var l []int
+					for i, k := range x.b.Acct.Aks {
+						if i != drop {
+							ks[k] = true
+							l = append(l, k)
+						}
+					}
+					if len(l) > 0 && !x.b.Acct.satisfied(ks) {
+						sub = l
+						break
+					}
+				}
+				if sub == nil {
+					res.skip = "every member subset satisfies the rule"
+					return res
+				}
+				first := hx.Ring[sub[0]]
+				var auth []string
+				for _, k := range sub {
+					auth = append(auth, x.acct+"/"+hx.Ring[k].Address)
+				}
+				f := x.pureTransfer(first.Address, auth, us[0], first.Address, mut.Kind)
+				c07PlainSign(f, [][2]*hx.Key{{first, first}}, c07DefWho(nil))
+				res.tx = f
+			}
+		default:
+			res.skip = "unknown kind"
+		}
+	default:
+		res.skip = "unknown class"
+	}
+	return res
+}
